@@ -87,6 +87,10 @@ type Map struct {
 type Chan struct {
 	Buf    []Value
 	Timer  bool
+	// timers: Expired = created with a duration <= 0 (ready at once);
+	// Deadline = clock at creation + duration
+	Expired  bool
+	Deadline *smt.Term
 	Closed bool
 	Name   string
 }
